@@ -720,4 +720,21 @@ theorem postfixCorner_bottom (filter : Tile P → Bool) (depth : Nat) : ∀ (f :
           or_true, if_true, Bool.true_eq_false, or_false]
         by_cases hd : t.pos.n = depth <;> simp [hd, List.filter_cons]
 
+/-! ### non-vacuity: a commutative midpoint exists, and the theorems say something concrete about it -/
+
+/-- points = natural numbers, midpoint = sum (commutative), the six vertices numbered 1, 2, 4, 8, 16, 32 -/
+def vtxN : Vtx → Nat
+  | .N => 1 | .S => 2 | .E0 => 4 | .E90 => 8 | .E180 => 16 | .E270 => 32
+
+example : ∀ a b : Nat, a + b = b + a := Nat.add_comm
+
+/-- the tile at (2, 1, 3) of the astronomical system, by the recursive definition, by `create_single_tile`, and as a grid cell -/
+example : (tileAt (· + ·) vtxN false 2 1 3).q = ⟨48, 33, 32, 34⟩ ∧
+    single (· + ·) vtxN false ⟨2, 1, 3⟩ = some (tileAt (· + ·) vtxN false 2 1 3) ∧
+    cell (· + ·) vtxN false 2 1 3 = ⟨48, 33, 32, 34⟩ := by decide
+
+/-- the enumeration of depth 2 yields 16 + 4 tiles, the bottom-only one 16 -/
+example : (generate (· + ·) vtxN true (fun _ => true) false 2).length = 20 ∧
+    (generate (· + ·) vtxN true (fun _ => true) true 2).length = 16 := by decide
+
 end C04
